@@ -49,7 +49,7 @@ type c15Conn struct {
 
 	calls     int
 	lastOp    byte
-	lastLen   int // len(p) seen by the underlying call
+	lastLen   int    // len(p) seen by the underlying call
 	lastBytes []byte // bytes returned by Read / presented to Write
 	lastN     int
 	lastErr   error
